@@ -1,4 +1,4 @@
-import TrionModel.Lemmas.LayoutRun
+import TrionModel.Lemmas.LayoutDef
 /-!
 # C05 — the program image equals the sequential layout of its statements (layout core)
 
@@ -27,5 +27,71 @@ example : (∀ s ∈ [Stmt.addr 260, .emit 2 [1] [7, 0], .addr 256, .raw [1, 2, 
 /-- `wf` cannot be dropped: a deferred statement whose final bytes are longer than its placeholder hits the
 `assert_eq!(n, 0)` of the rewrite once its region is closed. -/
 example : run [Stmt.addr 0, .emit 1 [1] [0, 0], .addr 16, .const 1 [] 0] = .error .panic := rfl
+
+
+/-! ## The image of a successful run is the sequential layout
+
+FULL-STRENGTH STATEMENT (FALSE as it stands — see the counterexample below):
+  theorem layout_refines : run p = .ok img → (∀ s ∈ p, s.wf) → Ref.layout p = some img' → ∀ a, img.get a = img'.get a
+It fails in exactly one corner: a padding `.align n` where the reference cursor is 2^32, i.e. directly after a
+region has been filled through 0xFFFFFFFF. `Align::apply` computes the padding from `curr_addr()`, which
+saturates at 0xFFFFFFFF; for every `n ≥ 2` dividing 2^32 − 1 (3, 5, 15, 17, 51, 85, 255, 257, …) it sees offset
+0 and accepts the statement without padding and without diagnostic, whereas the reference would have to pad
+from 2^32 up to the next multiple of `n` (addresses that do not exist). For the other `n ≥ 2` the
+implementation reports an overflow diagnostic (C13 records this). The proved theorem carries the precise side
+condition `NoAlignAtTop p` (Spec/Layout.lean): every `.align n` met at a reference cursor `c ≥ 2^32` has
+`c % n = 0`. Nothing else is missing: any number of regions in any address order, any mix of forward and
+backward references, labels, constants, zero-length statements, regions ending exactly at 2^32. -/
+
+/-- the counterexample to the unrestricted statement: `.addr 0xFFFFFFFF; .du8 0; .align 3;` assembles
+(real `trias`: "Assembled successfully"), the reference pads at 2^32 and 2^32 + 1. -/
+example : run [Stmt.addr 4294967295, .raw [0], .align 3] = .ok [(4294967295, 0)] ∧
+    Ref.layout [Stmt.addr 4294967295, .raw [0], .align 3]
+      = some [(4294967296, 190), (4294967297, 190), (4294967295, 0)] ∧
+    ¬ NoAlignAtTop [Stmt.addr 4294967295, .raw [0], .align 3] :=
+  ⟨rfl, rfl, fun h => by
+    have := h 4294967296 3 (by simp [Ref.trace, Ref.next])
+    simp [top] at this⟩
+
+/-- C05 (main theorem): on success the image is, address by address, the image of the two-pass reference:
+every statement's bytes at its address in source order, nothing else, no placeholder left. -/
+theorem layout_refines_partial (p : List Stmt) (img img' : Img) (h : run p = .ok img) (hwf : ∀ s ∈ p, s.wf)
+    (hal : NoAlignAtTop p) (href : Ref.layout p = some img') : ∀ a, img.get a = img'.get a := by
+  obtain ⟨im, e1, hg⟩ := run_pass2 p img h hwf hal
+  rw [(layout_some p img' href).2] at e1
+  cases e1
+  exact hg
+
+/-- the same without reference to pass 1: the image of a successful run is the `pass2` image (`pass2` is
+defined on every program that assembles) -/
+theorem run_is_pass2 (p : List Stmt) (img : Img) (h : run p = .ok img) (hwf : ∀ s ∈ p, s.wf)
+    (hal : NoAlignAtTop p) : ∃ img', Ref.pass2 none [] p = some img' ∧ ∀ a, img.get a = img'.get a :=
+  run_pass2 p img h hwf hal
+
+/-- C05: success implies that the reference is defined, unless a label stands where the reference cursor is
+2^32 (`Ref.pass1` is undefined there; the implementation gives such a label the value 0xFFFFFFFF). Together
+with `layout_refines_partial`: success always means "equals the reference". -/
+theorem ref_defined (p : List Stmt) (img : Img) (h : run p = .ok img) (hwf : ∀ s ∈ p, s.wf)
+    (hl : NoLabelAtTop p) : Ref.layout p ≠ none :=
+  run_ref_defined p img h hwf hl
+
+/-- `NoLabelAtTop` cannot be dropped: a label directly after a region filled through 0xFFFFFFFF -/
+example : run [Stmt.addr 4294967295, .raw [0], .label 1] = .ok [(4294967295, 0)] ∧
+    Ref.layout [Stmt.addr 4294967295, .raw [0], .label 1] = none := ⟨rfl, rfl⟩
+
+/-- non-vacuity of `layout_refines_partial` / `ref_defined`: forward reference, region switch downwards into a
+region ending exactly at the deferred statement, label, padding `.align` -/
+example : let p := [Stmt.addr 260, .emit 2 [1] [7, 0], .addr 255, .raw [1], .align 4, .label 2, .raw [2, 3, 4, 5],
+      .const 1 [] 7]
+    (∀ s ∈ p, s.wf) ∧ NoAlignAtTop p ∧ NoLabelAtTop p ∧ (∃ img, run p = .ok img) ∧ (∃ img', Ref.layout p = some img') := by
+  refine ⟨by decide, ?_, ?_, ⟨_, rfl⟩, ⟨_, rfl⟩⟩
+  · intro c n hc
+    simp [Ref.trace, Ref.next] at hc
+    rcases hc with ⟨rfl, rfl⟩
+    left; decide
+  · intro c n hc
+    simp [Ref.trace, Ref.next, Ref.size] at hc
+    rcases hc with ⟨rfl, rfl⟩
+    decide
 
 end Trion.Layout
